@@ -31,7 +31,7 @@ Base ==
                  pnames |-> <<"p0">>, entry |-> 1, bnames |-> <<"b1", "b2">>,
                  blocks |-> << <<IConst(7), IStore(-2, 2), IJump(2)>>,
                                <<ILoad(-2), IBinop("-", 1, 3), IRet(4)>> >>,
-                 vol |-> << <<FALSE, TRUE, FALSE>>, <<TRUE, FALSE, FALSE>> >>,
+                 vol |-> << <<FALSE, FALSE, FALSE>>, <<TRUE, FALSE, FALSE>> >>,
                  vnames |-> << <<"c", "", "">>, <<"ld", "d", "">> >>,
                  dangling |-> <<>>] >>]
 BaseText == << <<109, 111, 100>>, <<105, 51, 50, 32, 99>>, <<125>> >>
@@ -72,16 +72,16 @@ DropInstruction    == IsKind(1, 3, "Jump") /\ Loss("DropInstruction",
                            [b EXCEPT !.funcs[1].blocks[1] = SubSeq(@, 2, 3), !.funcs[1].vol[1] = SubSeq(@, 2, 3),
                                      !.funcs[1].vnames[1] = SubSeq(@, 2, 3)])
 ChangeEntry        == HasF /\ Loss("ChangeEntry", [b EXCEPT !.funcs[1].entry = 2])
-DropExternal       == Loss("DropExternal", [b EXCEPT !.externals = <<>>])
+DropExternal       == Len(b.externals) >= 1 /\ Loss("DropExternal", [b EXCEPT !.externals = <<>>])
 ChangeExternalType == Len(b.externals) >= 1 /\ Loss("ChangeExternalType", [b EXCEPT !.externals[1].args[2] = "i64"])
-ChangeVariableSize == Loss("ChangeVariableSize", [b EXCEPT !.variables[1].size = 8])
-ChangeAlignment    == Loss("ChangeAlignment", [b EXCEPT !.variables[1].align = 1])
-ChangeVarBinding   == Loss("ChangeVarBinding", [b EXCEPT !.variables[1].binding = "local"])
+ChangeVariableSize == Len(b.variables) >= 1 /\ Loss("ChangeVariableSize", [b EXCEPT !.variables[1].size = 8])
+ChangeAlignment    == Len(b.variables) >= 1 /\ Loss("ChangeAlignment", [b EXCEPT !.variables[1].align = 1])
+ChangeVarBinding   == Len(b.variables) >= 1 /\ Loss("ChangeVarBinding", [b EXCEPT !.variables[1].binding = "local"])
 ChangeReturnType   == HasF /\ Loss("ChangeReturnType", [b EXCEPT !.funcs[1].sig.ret = "u8"])
 ChangeFnBinding    == HasF /\ Loss("ChangeFnBinding", [b EXCEPT !.funcs[1].sig.binding = "local"])
 FunctionBecomesProcedure == HasF /\ Loss("FunctionBecomesProcedure", [b EXCEPT !.funcs[1].sig.kind = "procedure", !.funcs[1].sig.ret = ""])
-DropFunction       == Loss("DropFunction", [b EXCEPT !.funcs = <<>>])
-RenameModule       == Loss("RenameModule", [b EXCEPT !.name = "other"])
+DropFunction       == HasF /\ Loss("DropFunction", [b EXCEPT !.funcs = <<>>])
+RenameModule       == b.name = "m" /\ Loss("RenameModule", [b EXCEPT !.name = "other"])
 LeavePlaceholder   == HasF /\ Loss("LeavePlaceholder", [b EXCEPT !.funcs[1].dangling = <<"Undefined i32:x">>])
 EditText           == /\ Len(hist) < MaxLoss
                       /\ \E ln \in 1..Len(tb) : tb' = [tb EXCEPT ![ln] = Append(@, 59)]
